@@ -147,6 +147,11 @@ func (el *eventloop) read(c *conn) error {
 
 func (el *eventloop) cread(c *conn) error {
 	for {
+		if c.closeAfterFlush {
+			// QUIT has been accepted: whatever the client sends after it is ignored
+			c.resetBuffer()
+			return nil
+		}
 		r, err := c.cread()
 		if err == codec.ErrInvalidResp {
 			logging.Warnf("[%dc] client closed because of invalid resp", c.Fd())
@@ -158,7 +163,19 @@ func (el *eventloop) cread(c *conn) error {
 		}
 
 		out, action := el.eventHandler.OnCReact(r, c)
-		if out != nil {
+		if out != nil && !c.inMsgQueue.Empty() {
+			// Earlier requests of this client are still waiting for redis: the locally
+			// produced reply takes its place in the queue behind them, so that replies
+			// leave in request order.
+			r.RspBody = append(r.RspBody[:0], out...)
+			r.Done = true
+			c.EnqueueInMsg(r)
+			if action == Close {
+				// close once everything queued before has been answered
+				c.closeAfterFlush = true
+				action = None
+			}
+		} else if out != nil {
 			// Encode data and try to write it back to the peer, this attempt is based on a fact:
 			// the peer socket waits for the response data after sending request data to the server,
 			// which makes the peer socket writable.
@@ -291,6 +308,10 @@ func (el *eventloop) flushDone(c *conn) {
 	// release Msg
 	for ; n > 0; n-- {
 		MsgPool.Put(c.dequeueInMsg())
+	}
+
+	if c.closeAfterFlush && c.inMsgQueue.Empty() {
+		_ = el.closeConn(c, nil, ProxyEof)
 	}
 }
 
